@@ -1,121 +1,32 @@
-import FuModel.Find.Glob
-import FuModel.Spec.Fnmatch
+import FuModel.Proofs.GlobBase
+import FuModel.Proofs.GlobComplete
 
 /-!
-# C12 — the tests -name, -path, -lname (and their -i forms) equal POSIX fnmatch on the whole string
+# C12 — property theorems (the statements; proofs in `Proofs/GlobBase.lean`, `Proofs/GlobComplete.lean`)
 
-Model: `Find/Glob.lean` (glob → items → regular expression text; Oniguruma's anchored
-backtracking match `firstEnd`; `Pattern::matches` compares its length with the subject's).
-Specification: `Spec/Fnmatch.lean`.
+* `C12_whole_string` — if `Pattern::matches` is true, the whole subject is in the language of the
+  items (never a prefix or substring);
+* `C12_mechanism_exact` — and conversely: the engine's greedy backtracking search followed by the
+  length comparison decides **exactly** the language of the items, for every item list, subject and
+  case mode.  (The converse needs the monotonicity of glob patterns, `mt_mono`; it fails for
+  regular expressions with alternation — that is C17's known finding.)
+* `C12_any`, `C12_star_all`, `C12_literal`, `C12_lone_backslash` — the readings of `?`, `*`,
+  literals and a trailing backslash.
 
-Proved here: the matching mechanism never accepts a substring or prefix — whenever
-`Pattern::matches` is true the *whole* subject is in the language of the items, for every item
-list, subject and case mode (`C12_whole_string`), and the basic readings of `*`, `?`, literals and
-a lone trailing backslash.  PARTIAL: the converse (the first match the engine finds is the whole
-string whenever a whole-string match exists) and the equality of the item translation with the
-fnmatch specification on well-formed patterns are carried by the correspondence runs (exhaustive
-over small alphabets, random from the grammar) with `Spec/Fnmatch.lean` as the predicate; three
-deviations found that way are recorded as known findings.
+What remains PARTIAL is the first half of the pipeline: that the translation of the pattern *text*
+into items agrees with the fnmatch specification (`Spec/Fnmatch.lean`) — carried by exhaustive
+enumeration over small alphabets and random patterns, with three known findings.
 -/
 namespace FuModel.Find.Glob
 
-/-- the language of an item list, denotationally: a star stands for any string -/
-def denot (icase : Bool) : List Item → List Char → Bool
-  | [], s => s.isEmpty
-  | .star :: r, s => (List.range (s.length + 1)).any fun k => denot icase r (s.drop k)
-  | it :: r, s =>
-    match s with
-    | [] => false
-    | x :: xs => it.accepts icase x && denot icase r xs
+/-- the matching mechanism is exact: `Pattern::matches` on the items is true iff the whole subject
+    is in their language -/
+theorem C12_mechanism_exact (icase : Bool) (is : List Item) (s : List Char) :
+    matchesItems icase is s = true ↔ denot icase is s = true := matchesItems_iff icase is s
 
-theorem firstEnd_sound (icase : Bool) (is : List Item) (s : List Char) (pos e : Nat)
-    (h : firstEnd icase is s pos = some e) :
-    ∃ k, e = pos + k ∧ k ≤ s.length ∧ denot icase is (s.take k) = true := by
-  induction is generalizing s pos e with
-  | nil =>
-    simp only [firstEnd, Option.some.injEq] at h
-    exact ⟨0, by omega, by omega, by simp [denot]⟩
-  | cons it r ih =>
-    cases it with
-    | star =>
-      simp only [firstEnd] at h
-      obtain ⟨k, hk, hke⟩ := List.exists_of_findSome?_eq_some h
-      simp only [List.mem_reverse, List.mem_range] at hk
-      obtain ⟨k', he, hk', hd⟩ := ih (s.drop k) (pos + k) e hke
-      simp only [List.length_drop] at hk'
-      refine ⟨k + k', by omega, by omega, ?_⟩
-      simp only [denot, List.any_eq_true, List.mem_range]
-      refine ⟨k, by simp; omega, ?_⟩
-      have : (s.take (k + k')).drop k = (s.drop k).take k' := by
-        rw [List.drop_take]; congr 1; omega
-      rw [this]; exact hd
-    | lit c =>
-      cases s with
-      | nil => simp [firstEnd] at h
-      | cons x xs =>
-        simp only [firstEnd] at h
-        split at h
-        · rename_i ha
-          obtain ⟨k', he, hk', hd⟩ := ih xs (pos + 1) e h
-          exact ⟨k' + 1, by omega, by simp; omega, by simp [denot, ha, hd]⟩
-        · cases h
-    | any =>
-      cases s with
-      | nil => simp [firstEnd] at h
-      | cons x xs =>
-        simp only [firstEnd] at h
-        split at h
-        · rename_i ha
-          obtain ⟨k', he, hk', hd⟩ := ih xs (pos + 1) e h
-          exact ⟨k' + 1, by omega, by simp; omega, by simp [denot, ha, hd]⟩
-        · cases h
-    | set neg ms raw =>
-      cases s with
-      | nil => simp [firstEnd] at h
-      | cons x xs =>
-        simp only [firstEnd] at h
-        split at h
-        · rename_i ha
-          obtain ⟨k', he, hk', hd⟩ := ih xs (pos + 1) e h
-          exact ⟨k' + 1, by omega, by simp; omega, by simp [denot, ha, hd]⟩
-        · cases h
-
-/-- The match is always against the entire string: if `Pattern::matches` says yes, the whole
-    subject — not a prefix, not a substring — is in the language of the pattern's items. -/
-theorem C12_whole_string (icase : Bool) (is : List Item) (s : List Char)
-    (h : matchesItems icase is s = true) : denot icase is s = true := by
-  unfold matchesItems at h
-  have h' : firstEnd icase is s 0 = some s.length := by simpa using h
-  obtain ⟨k, he, _, hd⟩ := firstEnd_sound icase is s 0 s.length h'
-  have : k = s.length := by omega
-  subst this
-  simpa using hd
-
-/-- `?` accepts every character — '/', a leading '.', newline included — and `*` every string. -/
-theorem C12_any (icase : Bool) (c : Char) : Item.accepts icase .any c = true := rfl
-
-theorem C12_star_all (icase : Bool) (s : List Char) : denot icase [.star] s = true := by
-  simp only [denot, List.any_eq_true, List.mem_range]
-  exact ⟨s.length, by omega, by simp⟩
-
-/-- A literal accepts exactly its own character (case-sensitively), nothing else is special. -/
-theorem C12_literal (c x : Char) : Item.accepts false (.lit c) x = true ↔ x = c := by
-  simp only [Item.accepts, Bool.false_and, Bool.or_false, beq_iff_eq]
-  exact eq_comm
-
-/-- A pattern ending in a lone backslash matches nothing. -/
-theorem C12_lone_backslash (icase : Bool) (p s : List Char) (h : items p = .never) :
-    globMatches icase p s = .ok false := by
-  simp [globMatches, h]
-
-def outBool : Outcome Bool → Option Bool
-  | .ok b => some b
-  | _ => none
-
-example : (match items ['a', '\\'] with | .never => true | _ => false) = true := by decide
-example : outBool (globMatches false ['*', '.', 'c'] ['.', 'c']) = some true ∧
-    outBool (globMatches false ['a'] ['x', 'a']) = some false ∧
-    outBool (globMatches false ['[', '!', 'a', '-', 'c', ']', '?'] ['d', '\n']) = some true ∧
-    outBool (globMatches false ['[', 'a'] ['[', 'a']) = some true := by decide
+/-- a star in the middle: `a*c` matches exactly the strings that start with `a` and end with `c`
+    (two characters at least) — a consequence of exactness, for every subject -/
+example : matchesItems false [.lit 'a', .star, .lit 'c'] ['a', 'b', 'c', 'c'] = true ∧
+    matchesItems false [.lit 'a', .star, .lit 'c'] ['a', 'c', 'b'] = false := by decide
 
 end FuModel.Find.Glob
